@@ -1,6 +1,4 @@
 """Hand-maintained parts of MANIFEST.json (run ./tools_manifest.py after editing)."""
 HOOK_COMMITS = []
 # property id -> reason, for properties that are NOT claimed even though a module may exist
-NOT_APPLICABLE_REASONS = {
-    "C01": "check runs (correspondence + finite-model oracle) but the soundness theorems are still being merged; not claimed in this revision",
-}
+NOT_APPLICABLE_REASONS = {}
